@@ -34,6 +34,7 @@ ROWS3 = [
     [0.60, 4.0e-5, 0.40 - 4.0e-5],                                # b just below the threshold
     [0.60, 5.0e-5, 0.40 - 5.0e-5],                                # b just above the threshold
     [2.0e-5, 3.0e-5, 1 - 5.0e-5],                                 # every non-blank below it (shortcut)
+    [1.0e-17, 1.0e-18, 1.0],                                      # a saturated frame: the blank's log-probability is exactly 0.0, a and b still possible
 ]
 ROWS4 = [
     [0.85, 0.05, 0.05, 0.05], [0.05, 0.85, 0.05, 0.05], [0.05, 0.05, 0.85, 0.05], [0.05, 0.05, 0.05, 0.85],
@@ -363,6 +364,18 @@ def check_case(case, ctx):
             ctx.tag('selector-pruned')
         if st['tie_branches']:
             ctx.tag('tie-at-beam-boundary')
+    # a character table with a base letter, a bare combining mark and the precomposed letter: 'e' + U+0301 and U+00E9 are different transcripts
+    if C == 4 and len(case['rows']) <= 2 and 'k' not in case:
+        from pero_ocr.decoding.decoders import CTCPrefixLogRawNumpyDecoder
+        ulet = ['e', '\u0301', '\u00e9', '<BLANK>']
+        want_u = {''.join(ulet[i] for i in l): math.log(p) for l, p in ctc_brute(M, C - 1).items()}
+        got_u = [(h.transcript, float(h.vis_sc)) for h in CTCPrefixLogRawNumpyDecoder(ulet, 100, relevant_logits_selector=select_all)(lp.copy())]
+        ctx.executed()
+        if len({t for t, _ in got_u}) != len(got_u) or set(t for t, _ in got_u) != set(want_u) or any(abs(v - want_u[t]) > EPS for t, v in got_u):
+            ctx.violation('exact-when-unpruned', f'{ID}/C4/unicode-letter-table',
+                          f'letters e / U+0301 / U+00E9: hypotheses {[(t.encode("unicode_escape").decode(), round(v, 4)) for t, v in got_u]}, '
+                          f'truth {[(t.encode("unicode_escape").decode(), round(v, 4)) for t, v in sorted(want_u.items())]}; matrix {M}')
+        ctx.tag('combining-mark-letter-table')
     # unusual-but-legal use: float32 log-probabilities; one decoder object called repeatedly on the same matrix object
     if len(case['rows']) <= 2 and 'k' not in case:
         from pero_ocr.decoding.decoders import CTCPrefixLogRawNumpyDecoder
@@ -401,5 +414,5 @@ def describe(tier):
                         'scores are compared within 1e-9', 'blank is the last symbol'],
         'min_nontrivial': 100,
         'required_tags': ['beam-pruned', 'prefix-joining', 'all-pruned-shortcut', 'selector-pruned', 'unpruned-nodes',
-                          'unnormalised-variants', 'tie-at-beam-boundary', 'float32-and-reused-decoder', 'more-than-255-frames', 'output-layer-beyond-int16'],
+                          'unnormalised-variants', 'tie-at-beam-boundary', 'float32-and-reused-decoder', 'more-than-255-frames', 'output-layer-beyond-int16', 'combining-mark-letter-table'],
     }
